@@ -231,6 +231,33 @@ impl Monitor for C07 {
                 }
             }
         }
+        // ---- a transaction that is not in the block has no position in it
+        {
+            let present: std::collections::BTreeSet<[u8; 32]> = txs.iter().map(|t| t.hash_nosigs().0 .0).collect();
+            let mut absent: Vec<[u8; 32]> = vec![[0u8; 32], [0xffu8; 32], tmelcrypt::hash_single(&ev.height.to_be_bytes()).0];
+            for t in txs.iter().take(6) {
+                let mut lo = t.hash_nosigs().0 .0;
+                lo[31] ^= 1;
+                let mut hi = t.hash_nosigs().0 .0;
+                hi[0] ^= 0x80;
+                absent.push(lo);
+                absent.push(hi);
+            }
+            for a in absent {
+                if present.contains(&a) {
+                    continue;
+                }
+                self.rep.count("absent transaction hashes asked for a position");
+                if let Some(pos) = tip.transaction_sorted_posn(TxHash(HashVal(a))) {
+                    self.rep.violate(
+                        &format!("C07|absent-transaction-has-position|transaction_sorted_posn|{}", if txs.is_empty() { "empty-block" } else { "non-empty-block" }),
+                        format!("a transaction hash that is not in the block is reported at position {}", pos),
+                        self.wit(w, ev, json!({"absent_hash": hex::encode(a), "block_transactions": txs.len()})),
+                    );
+                    break;
+                }
+            }
+        }
         // ---- proofs for entries of the three sparse trees
         self.check_proofs(w, ev, "coins", &coins_t, &coins_c, hdr.coins_hash.0);
         self.check_proofs(w, ev, "pools", &pools_t, &pools_c, hdr.pools_hash.0);
@@ -423,7 +450,7 @@ pub fn run(p: &Params) -> Report {
     let mine = p.share(total);
     let mut rng = Rng::new(p.shard_seed() ^ 0xC07);
     let mut mon = C07 { rep: Report::new("C07"), case_seed: 0, headers: vec![], r: Rng::new(p.shard_seed() ^ 7) };
-    mon.rep.rule = "cases = (a) every sealed state of random histories on all network classes (sparse and TIP-908 dense transaction commitments): height/previous/network chaining, history(h) for every recorded ancestor, coins/pools/history/stakes/transactions roots recomputed from the iterated contents with an independent reference Merkle function, inclusion proofs for entries (all, or 24 sampled per tree) verified by the library and by the reference verifier, tampered values and absent keys, every block transaction at its sorted position; (b) equal coin/pool maps built by 4 different operation orders incl. create-then-spend detours and overwrites; (c) sibling fabricated states differing in exactly one of 19 components (incl. zero-valued stakes, coins and pools; fee pool, fee multiplier and DOSC speed drawn from 0 .. 2^128-2 incl. both sides of 2^64 and 2^120), whose headers must also carry the three scalars unchanged. Non-trivial = sealed state with transactions, each order case, each sibling pair; distinct by header hash / case".into();
+    mon.rep.rule = "cases = (a) every sealed state of random histories on all network classes (sparse and TIP-908 dense transaction commitments): height/previous/network chaining, history(h) for every recorded ancestor, coins/pools/history/stakes/transactions roots recomputed from the iterated contents with an independent reference Merkle function, inclusion proofs for entries (all, or 24 sampled per tree) verified by the library and by the reference verifier, tampered values and absent keys, every block transaction at its sorted position, and no position for hashes that are not in the block (all-zero, all-one, neighbours of present hashes); (b) equal coin/pool maps built by 4 different operation orders incl. create-then-spend detours and overwrites; (c) sibling fabricated states differing in exactly one of 19 components (incl. zero-valued stakes, coins and pools; fee pool, fee multiplier and DOSC speed drawn from 0 .. 2^128-2 incl. both sides of 2^64 and 2^120), whose headers must also carry the three scalars unchanged. Non-trivial = sealed state with transactions, each order case, each sibling pair; distinct by header hash / case".into();
     if p.only_case.is_none() {
         mon.rep.require("sealed states checked", p.n(1200, 24000));
         mon.rep.require("single-component sibling pairs", p.n(100, 2000));
